@@ -6,6 +6,6 @@
 
 namespace vf { namespace c10 {
 void register_unit_families() { register_group_a(); }
-uint64_t random_cases(bool thorough) { return thorough ? 40000 : 1200; }
+uint64_t random_cases(bool thorough) { return thorough ? 40000 : 1000; }
 std::vector<Extra>& extras() { static std::vector<Extra> x; return x; }
 } }
